@@ -14,6 +14,7 @@ LEVEL_TEXT = ("Real paired-end runs (two files and interleaved, all filter/redir
               "records combined by the documented table (any/both/first; a one-sided LEN: or :LEN2 bound looks at that side only; 'both' forced "
               "for the untrimmed filters when adapters exist for one side only). With --pair-adapters both mates carry matches of the same rank "
               "or both are unmatched and equal the records of a run without adapters.")
+LEVEL_TEXT += " Paired --revcomp scenarios (mates of about half of the pairs exchanged in the input; the reference is read off the records of a filter-free run: ' rc' in the name, lengths) and adapters named 'unknown' under demultiplexing."
 LEVEL_NOTE = ("Trusted base: independent parser, unique pair ids, refmodel predicates and the combination table written from the guide; the "
               "baseline run gives each mate's processed record and last-match name.")
 VARIANTS = {"quick": ["plain"], "thorough": ["plain"]}
